@@ -23,6 +23,10 @@ import (
 
 func main() {
 	flag.Parse()
+	if v, ok := ev.ReplayRequested(); ok {
+		fmt.Printf("  this check enumerates inputs; the replay artefact names the failing input directly: %v\n", v.Replay)
+		return
+	}
 	r := ev.Start("C14")
 	defer r.RecoverMain()
 	defer world.Cleanup()
